@@ -200,6 +200,12 @@ def _setup(seed, dim, kernel, real_t, k, dyadic=None):
     uvec = r.normal(size=(dim,) + shape).astype(real_t)
     F = r.normal(size=n).astype(real_t)
     Fvec = r.normal(size=(dim, n)).astype(real_t)
+    # markers whose force has exactly zero components (axial loads, force-free markers): every pattern of zero / non-zero components
+    for m in range(min(n, 2 ** dim)):
+        for c in range(dim):
+            if (m >> c) & 1:
+                Fvec[c, n - 1 - m] = 0
+    F[n - 1] = 0
     E0 = r.normal(size=shape).astype(real_t)
     E0vec = r.normal(size=(dim,) + shape).astype(real_t)
     return r, shape, dx, shift, n, pos, kinds, u, uvec, F, Fvec, E0, E0vec
